@@ -717,7 +717,8 @@ impl<'a> Value<'a> {
         match self {
             Value::Null => 0u8.hash(hasher),
             Value::Int(i) => i.hash(hasher),
-            Value::Float(f) => f.to_bits().hash(hasher),
+            // +0.0 and -0.0 compare equal, so they must hash equally (hash joins, grouping)
+            Value::Float(f) => (if *f == 0.0 { 0.0f64 } else { *f }).to_bits().hash(hasher),
             Value::Text(s) => s.hash(hasher),
             Value::Blob(b) => b.hash(hasher),
             Value::Vector(v) => {
